@@ -229,6 +229,23 @@ func (visitor *Visitor) VisitDisjunction(schema *ast.Schema, def ast.Type) (ast.
 	return def, nil
 }
 
+// VisitDisjunctionBranches visits every branch of the given disjunction.
+// It is meant to be called by OnDisjunction callbacks – which replace the
+// default traversal – to make sure that types nested within the branches
+// (a disjunction in an array used as branch, ...) are visited too.
+func (visitor *Visitor) VisitDisjunctionBranches(schema *ast.Schema, def ast.Type) (ast.Type, error) {
+	var err error
+
+	for i, branch := range def.Disjunction.Branches {
+		def.Disjunction.Branches[i], err = visitor.VisitType(schema, branch)
+		if err != nil {
+			return ast.Type{}, err
+		}
+	}
+
+	return def, nil
+}
+
 func (visitor *Visitor) VisitIntersection(schema *ast.Schema, def ast.Type) (ast.Type, error) {
 	if visitor.OnIntersection != nil {
 		return visitor.OnIntersection(visitor, schema, def)
